@@ -754,7 +754,13 @@ impl<T> TooDee<T> {
     {
         assert!(index < self.num_rows);
         let start = index * self.num_cols;
-        let drain = self.data.drain(start..start + self.num_cols);
+        // Move the row to the end first, so that the `Drain` covers the tail of the vector. A
+        // leaked `Drain` truncates the vector at its start: draining the tail then merely loses
+        // the removed row, whereas draining the middle would also lose every row below it and
+        // leave the dimensions inconsistent with the data.
+        self.data[start..].rotate_left(self.num_cols);
+        let tail_start = self.data.len() - self.num_cols;
+        let drain = self.data.drain(tail_start..);
         self.num_rows -= 1;
         if self.num_rows == 0 {
             self.num_cols = 0;
